@@ -624,6 +624,28 @@ class Run(RunBase):
             self.seams.open_shim.arm(fault["ioerr"])
             self.faults["F-ioerr"] += 1
         try:
+            if op.get("persistent"):
+                # an exporter object that lives as long as the scenario and is used again and again (also after a
+                # refused export): every file it writes is the export of the unchanged scenario
+                if not hasattr(self, "pwriters"):
+                    self.pwriters = {}
+                if fmt in self.pwriters:
+                    self.probe("long-lived-writer-used-again")
+                else:
+                    self.pwriters[fmt] = CommonRoadFileWriter(self.sc, self.pps, decimal_precision=8,
+                                                              file_format=FMT[fmt])
+                w = self.pwriters[fmt]
+                w.write_to_file(os.path.join(self.dir, rel), OverwriteExistingFile.ALWAYS)
+                base = self.base_export[fmt]
+                if base[0] == "ok":
+                    with open(os.path.join(self.dir, rel), "rb") as fh:
+                        now = normalise(fmt, fh.read())
+                    if now != base[1]:
+                        raise Violation(f"C18/export-differs[{fmt}]/export[long-lived writer]",
+                                        f"the {fmt} file written by a long-lived writer object differs from the export "
+                                        f"taken before any operation ({len(base[1])} vs {len(now)} bytes, date aside) "
+                                        f"although only read-only operations ran")
+                return
             w = CommonRoadFileWriter(self.sc, self.pps, decimal_precision=op.get("prec", 4), file_format=FMT[fmt])
             if op.get("method") == "scenario":
                 w.write_scenario_to_file(os.path.join(self.dir, rel), OverwriteExistingFile.ALWAYS)
@@ -728,7 +750,7 @@ def _inspector(rng, run, cfg):
             n_exp += 1
             fmt = rng.pick(["xml", "pb"])
             op = {"op": k, "fmt": fmt, "n": n_exp, "prec": rng.randint(1, 10), "validate": rng.chance(0.3),
-                  "method": rng.pick(["full", "full", "scenario"])}
+                  "method": rng.pick(["full", "full", "scenario"]), "persistent": rng.chance(0.35)}
             r = rng.random()
             if r < cfg["p_bad"]:
                 op["fault"] = {"nodir": True}
@@ -772,7 +794,8 @@ class C18(Property):
                        "cell:renderxcustom-state-without-orientation", "op-raised:goal", "op-raised:export", "render-flag:draw_intersections", "render-flag:draw_icon",
                        "render-animation-with-focus-obstacle", "feature:tiny-coordinates",
                        "feature:scenario-id-with-several-prediction-ids", "deep-copy-worked-on-in-place",
-                       "feature:closed-course"]
+                       "feature:closed-course", "feature:sign-or-light-without-position",
+                       "long-lived-writer-used-again"]
     assumptions = [
         "the snapshot reads public accessors only and never touches derived data whose computation is itself one of "
         "the side effects hunted (occupancy_set, distance, shapely_object)",
@@ -795,6 +818,10 @@ class C18(Property):
         net = gen.gen_network(rng, rows=rng.randint(1, 2), cols=rng.randint(1, 3), ids=ids, loops=0.3)
         net.pop("_geom", None)
         obstacles, features = [], set()
+        for el in net["signs"] + net["lights"]:
+            if rng.chance(0.12):
+                el["pos"] = None  # no position of its own: writers and renderer support that
+                features.add("sign-or-light-without-position")
         by = {la["id"]: la for la in net["lanelets"]}
 
         def reaches_itself(start):
